@@ -316,7 +316,9 @@ class Emitter:
                 # partial extraction: only the selected top-level statements of the body are verified; the rest is listed as dropped
                 self.rules['body_statement_not_selected(%s)' % cname] += 1
                 continue
+            self.top_level_stmt = s
             out += ['  ' + l for l in self.stmt(s)]
+        self.top_level_stmt = None
         if sel is not None and max(sel) >= len(self.kids(b)):
             raise Unsupported('%s: select_stmts names statement %d but the body has %d' % (cname, max(sel), len(self.kids(b))))
         if '__unwind' in self.labels_needed:
@@ -535,6 +537,21 @@ class Emitter:
         ts = self.tstr(t)
         cls = self.class_of(t)
         if self.is_guard_type(cls):
+            gg = self.spec.get('guard_ghost')
+            if gg:
+                # lock discipline as ghost state: a scoped guard declared at the outermost level of the function body holds its lock from here to the end of
+                # the function (that IS its scope), so `acquired` is recorded here and nothing has to be emitted at the returns; a guard in a nested scope is refused
+                tl = getattr(self, 'top_level_stmt', None)
+                if not (tl is not None and tl.get('kind') == 'DeclStmt' and d in self.kids(tl)):
+                    raise Unsupported('scoped guard %s in a nested scope (guard_ghost handles function-scope guards only)' % nm)
+                u = ks[0] if ks else None
+                while u is not None and u.get('kind') in ('ExprWithCleanups', 'CXXBindTemporaryExpr', 'MaterializeTemporaryExpr') and self.kids(u):
+                    u = self.kids(u)[0]
+                if u is None or u.get('kind') != 'CXXConstructExpr' or not self.kids(u):
+                    raise Unsupported('scoped guard %s without a lock argument' % nm)
+                self.rules['raii_guard_to_ghost_acquire'] += 1
+                pre, e = self.with_pre(lambda: self.lvalue_addr(self.kids(u)[0]))
+                return pre + ['%s(%s); /* scoped guard %s: held until the function returns */' % (gg, e, nm)]
             self.rules['drop_raii_guard'] += 1
             for c in ks:
                 pass
@@ -1401,7 +1418,7 @@ class Emitter:
         r = callee['referencedDecl']
         sig = r['type']['qualType']
         nm = r['name']
-        if args and nm in ('operator==', 'operator!=', 'operator++', 'operator--', 'operator*', 'operator->'):
+        if args and nm in ('operator==', 'operator!=', 'operator++', 'operator--', 'operator*', 'operator->', 'operator-', 'operator+', 'operator<', 'operator<=', 'operator>', 'operator>='):
             # iterator classes the spec maps to a plain C pointer (type_map target ends in '*'): the built-in pointer operators
             try:
                 ptr_iter = self._decl(self.class_of(args[0]['type']), '').rstrip().endswith('*')
@@ -1411,7 +1428,7 @@ class Emitter:
                 self.rules['pointer_iterator_operator'] += 1
                 op = nm[len('operator'):]
                 lhs = self.expr(args[0])
-                if op in ('==', '!='):
+                if op in ('==', '!=', '<', '<=', '>', '>=') or (op in ('-', '+') and len(args) == 2):
                     return '(%s %s %s)' % (lhs, op, self.expr(args[1]))
                 if op in ('++', '--'):
                     return '(%s%s)' % (lhs, op) if len(args) > 1 else '(%s%s)' % (op, lhs)
